@@ -29,7 +29,9 @@ vars == <<l, hp, H, viol, fired>>
 T2H(n, t) == Hdr(n, t[1], t[2], t[3], t[4], t[5])
 
 \* violations of one accepted pair p -> c with history H up to p
-PairViol(P, Hh, p, c, line) ==
+\* PP = the recorded parameter set; the clauses use the parameters of the ACTIVE version, PV(PP, p.cv)
+PairViol(PP, Hh, p, c, line) ==
+   LET P == PV(PP, p.cv) IN
    { <<name, Disc(name, P, p, c), line>> : name \in FailingPair(P, p, c) }
    \cup { <<name, ChainDisc(P, Hh, p, c), line>> : name \in FailingChain(P, Hh, p, c) }
 
@@ -38,11 +40,11 @@ RECURSIVE FoldChain(_, _, _, _, _, _, _)
 FoldChain(P, chain, i, p, Hh, vs, line) ==
    IF i > Len(chain) THEN <<p, Hh, vs>>
    ELSE LET c == T2H(p.n + 1, chain[i]) IN
-        FoldChain(P, chain, i + 1, c, Fold(P, Hh, p, c), vs \cup PairViol(P, Hh, p, c, line), line)
+        FoldChain(P, chain, i + 1, c, Fold(PV(P, p.cv), Hh, p, c), vs \cup PairViol(P, Hh, p, c, line), line)
 
-BuilderViol(P, Hh, p, b, line) ==
+BuilderViol(PP, Hh, p, b, line) ==
    IF Len(b.out) = 0 THEN {}
-   ELSE LET out == T2H(p.n + 1, b.out) IN
+   ELSE LET out == T2H(p.n + 1, b.out)  P == PV(PP, p.cv) IN
         (IF BuilderAccepted(b.own, b.full) THEN {} ELSE { <<"BuilderAccepted", BuilderDisc(p, out), line>> })
         \* an accepted builder header is an accepted pair like any other, reported under its own clause names so that a
         \* known deviation of the verifier never hides an unsafe header of the honest builder
@@ -62,7 +64,7 @@ Bump(f, P, p, cs, nb, nchain) ==
              !.Birth = @ + Count({c \in cs : Birth(p, c)}),
              !.Cont = @ + Count({c \in cs : Cont(p, c)}),
              !.Approval = @ + Count({c \in cs : Cont(p, c) /\ c.ap > p.ap}),
-             !.WindowClosedBelow = @ + Count({c \in cs : ~Switch(p, c) /\ p.nv # 0 /\ c.n >= p.vb /\ p.ap < P.th}),
+             !.WindowClosedBelow = @ + Count({c \in cs : ~Switch(p, c) /\ p.nv # 0 /\ c.n >= p.vb /\ p.ap < PV(P, p.cv).th}),
              !.Builder = @ + nb,
              !.Chains = @ + nchain]
 
@@ -90,7 +92,7 @@ Step ==
              IN /\ viol' = AddNew(viol, PairViol(P, H, hp, c, l))
                 /\ fired' = Bump(fired, P, hp, {c}, 0, 0)
                 /\ hp' = c
-                /\ H' = Fold(P, H, hp, c)
+                /\ H' = Fold(PV(P, hp.cv), H, hp, c)
         [] OTHER -> UNCHANGED <<hp, H, viol, fired>>
 
 Spec == Init /\ [][Step]_vars
